@@ -7,13 +7,16 @@
    threshold shift.  Every condition, shift amount and constant in it is a definition of
    Gen/DistinctConst.v, regenerated from the Go source on every run.
 
-   It is instantiated twice:
+   It is instantiated three times:
    * D, the BIT-READER monad: deterministic given the list of 64-bit words the random source will
      return (and, as a validated oracle, which elements survived the pass: Go's map iteration order
      decides that and is not observable).  Extracted and replayed against the implementation.
-   * E, the EXPECTATION monad (A -> Q) -> Q with ideal coins: the coin passes with probability
+   * E with IDEAL coins, the EXPECTATION monad (A -> Q) -> Q: the coin passes with probability
      exactly 2^-k (k = number of halvings, a ghost field of the state), words are 64 independent
-     fair bits, the map order is an arbitrary function [ord] of the buffer. *)
+     fair bits, the map order is an arbitrary function [ord] of the buffer.
+   * E with the REAL coin (Rcoin/Rrun): the same monad, but the coin is the code's own
+     (real_coin, shared with D): a 64-bit word drawn when the threshold is below MaxUint64 and
+     compared with it by the generated condition. *)
 From Coq Require Import ZArith List Bool QArith.
 Import ListNotations.
 From Mds Require Import Gen.DistinctConst.
